@@ -640,3 +640,64 @@ Qed.
 Print Assumptions C03_volchain_grow_keeps_wf.
 Print Assumptions C03_volchain_grow_keeps_wf_judge.
 Print Assumptions C03_volchain_grow_nospace_residue.
+
+(* ==================================================================================================================
+   create_dir IN THE FIXED ROOT ON WHOLE IMAGES (Model/VolDirTree.v): the D25 clause - a create_dir whose entry write fails gives the
+   freshly allocated cluster back.  PROVED IN GENERAL, for every FAT12/16 image with a sane geometry, every name and clock value. *)
+From FatVerif Require Import Model.Table Model.Fat Model.VolFile Model.VolRemove Model.VolDirTree Proofs.TableProofs Proofs.VolFileProofs
+  Proofs.VolDirProofs Proofs.VolDirTreeProofs Proofs.VolDirTreeExamples Proofs.VolSessionExamples Proofs.VolDirFormat.
+From FatVerif Require Proofs.FatProofs.
+
+(* the allocation succeeded (cluster c), then write_entry on the root answered an error.  Then: the call answers THAT error (it is
+   NotEnoughSpace: the name was validated before); c was free and every FAT entry the decoder reads has its old value again;
+   count_free unchanged; every byte outside the FAT copies and outside cluster c unchanged (nothing was written to the root);
+   cluster c stays ZEROED; the latch is the allocator's (moved hint) with the count incremented again, consistent with the table *)
+Theorem C03_vol_create_dir_failed_gives_back : forall upper oem im fi name now a im1 fi1 c st e ss',
+  let g := parse_geom im in
+  fixed_root_geom g -> FatProofs.bytes_ok im -> fi_inv fstore (val_ft (ft_of g)) (store_of g im) fi (g_clusters g) ->
+  check_for_existence upper oem (root_region_slots g im) name (Some true) = Ok (Fresh a) ->
+  vol_alloc_new_cluster g im fi = Ok (im1, fi1, c) -> stamp_create now = Ok st ->
+  write_entry FixedRoot 0 (root_region_slots g im1) name (create_sfn_entry false a ATTR_DIRECTORY (Some c) st) = (Err e, ss') ->
+  exists im',
+    vol_create_dir_root upper oem im fi name now = (Err e, (im', map_free fi1 (fun n => n + 1))) /\
+    (e = ENotEnoughSpace \/ validate_long_name name = Err e) /\
+    2 <= c < g_clusters g + 2 /\ fat_val g im c = FFree /\
+    (forall x, 2 <= x < g_clusters g + 2 -> fat_val g im' x = fat_val g im x) /\
+    Abs.count_free g im' = Abs.count_free g im /\
+    (forall o, ~ in_store_area g o -> ~ in_cluster g c o -> img_get im' o = img_get im o) /\
+    cluster_bytes g im' c = repeat_N 0 (N.to_nat (g_cluster_size g)) /\
+    FatProofs.bytes_ok im' /\ fi_inv fstore (val_ft (ft_of g)) (store_of g im') (map_free fi1 (fun n => n + 1)) (g_clusters g).
+Proof. exact vol_create_dir_nospace_gives_back. Qed.
+
+(* the premises are satisfiable and the clause is sharp: a 200-character name in the 16-entry root of the example volume.  Every byte
+   outside cluster 2 - BOTH FAT copies included - is as before, the image decodes as before and is well formed, 60 clusters free;
+   cluster 2 held the fill byte 0xD1 and is zero afterwards; the latch keeps next = 3 and is dirty *)
+Theorem C03_vol_create_dir_full_root_example :
+  fst ex_full = Err ENotEnoughSpace /\
+  img_read (fst (snd ex_full)) 0 2048 = img_read ex_vol_im 0 2048 /\
+  img_read (fst (snd ex_full)) 2560 (59 * 512) = img_read ex_vol_im 2560 (59 * 512) /\
+  img_read (fst (snd ex_full)) 2048 512 = repeat 0 512 /\ img_read ex_vol_im 2048 512 = repeat 209 512 /\
+  fat_val ex_g (fst (snd ex_full)) 2 = FFree /\ Abs.count_free ex_g (fst (snd ex_full)) = 60 /\
+  abs (fst (snd ex_full)) = abs ex_vol_im /\ Wf.wf_issues (fun l => l) (fst (snd ex_full)) = [] /\
+  snd (snd ex_full) = {| fi_free := None; fi_next := Some 3; fi_dirty := true |}.
+Proof. exact ex_mkdir_full_root_gives_back. Qed.
+
+(* failures BEFORE the allocation hand the same image back (rejected names; a FILE of that name: InvalidInput) *)
+Theorem C03_vol_create_dir_early_failures_example :
+  vol_create_dir_root ex_U ex_O ex_vol_im ex_sfi [97; 58] ex_vol_now = (Err EUnsupportedFileNameCharacter, (ex_vol_im, ex_sfi)) /\
+  vol_create_dir_root ex_U ex_O ex_vol_im ex_sfi [] ex_vol_now = (Err EInvalidFileNameLength, (ex_vol_im, ex_sfi)) /\
+  vol_create_dir_root ex_U ex_O ex_file_im ex_sfi [70] ex_vol_now = (Err EInvalidInput, (ex_file_im, ex_sfi)).
+Proof. exact ex_mkdir_early_failures. Qed.
+
+(* NOT PROVED IN GENERAL (C03_vol_create_dir_keeps_wf: Wf.wf_issues fold im = [] -> created -> Wf.wf_issues fold im' = [], in
+   particular the WDot / WDotDot clauses: "." in slot 0 carries the directory's own cluster, ".." in slot 1 carries 0 for a directory
+   of the root).  PROVED on the concrete volume (the dot clauses themselves: C01_vol_create_dir_decodes_partial): *)
+Theorem C03_vol_create_dir_keeps_wf_partial :
+  Abs.count_free ex_g ex_vol_im = 60 /\ Abs.count_free ex_g ex_mk_im = 59 /\
+  Wf.wf_issues (fun l => l) ex_vol_im = [] /\ Wf.wf_issues (fun l => l) ex_mk_im = [].
+Proof. exact ex_mkdir_accounting. Qed.
+
+Print Assumptions C03_vol_create_dir_failed_gives_back.
+Print Assumptions C03_vol_create_dir_full_root_example.
+Print Assumptions C03_vol_create_dir_early_failures_example.
+Print Assumptions C03_vol_create_dir_keeps_wf_partial.
